@@ -1,11 +1,13 @@
 (* C08 — generated files are well-formed instances of the requested type and parameters.
    Proved here: the even spreading of quotas / targets / projects per lecturer and the tie-probability
    extremes.  The assembly of the file text from these pieces and from the random draws is tied to the code by
-   the byte-exact correspondence R_genfile and judged by M_genfile (model importer + wf); "every list length
-   can occur" and the tie frequencies are requests to numpy's RNG (checked: [pmin, pmax+1), p = [1-t, t]),
-   whose distribution is trusted. *)
+   the byte-exact correspondence R_genfile and judged by M_genfile (model importer + wf).  "Every list length
+   can occur" is proved as: every vector of lengths in [pmin, pmax] is produced by draws that honour the RNG
+   contract (C08_every_length_can_occur); that numpy actually draws each with positive probability, and the tie
+   frequencies, are requests to numpy's RNG (checked: randint [pmin, pmax+1), p = [1-t, t]), whose distribution
+   is trusted. *)
 From MP Require Import Gen.Quotas Gen.Files Text.Ties Text.Import Proofs.TiesProofs Proofs.GenProofs Proofs.GenFiles
-                       Proofs.PipelineProofs.
+                       Proofs.PipelineProofs Proofs.GenLengths.
 From Coq Require Import Lia.
 Local Open Scope list_scope. Open Scope Z_scope.
 
@@ -65,6 +67,28 @@ Theorem C08_file_well_formed : forall a d text,
             (g_twopl a = false -> one_sided M = true).
 Proof. exact generated_file_imports. Qed.
 Print Assumptions C08_file_well_formed.
+
+(* one preference list per first-side agent containing between pmin and pmax distinct agents of the other side:
+   the lists of the instance read back from the file ARE the drawn lists *)
+Theorem C08_lists_are_the_draws : forall a d text M,
+  gargs_ok a -> draws_contract a d -> instance_text a d = Ok text ->
+  import_model text (na_of a) (g_twopl a) = Ok M ->
+  map (map pr) (pairs M) = d_first d /\
+  (forall row, In row (pairs M) ->
+     g_pmin a <= Z.of_nat (length row) <= g_pmax a /\ NoDup (map pr row) /\
+     (forall q, In q row -> 1 <= pr q <= g_n2 a)).
+Proof. exact generated_lists_are_the_draws. Qed.
+Print Assumptions C08_lists_are_the_draws.
+
+(* every list length in [pmin, pmax] can occur: any vector of such lengths results from some draws honouring the
+   contract, and the generator then writes the file *)
+Theorem C08_every_length_can_occur : forall a lens,
+  gargs_ok a -> length lens = Z.to_nat (g_n1 a) ->
+  (forall x, In x lens -> g_pmin a <= x <= g_pmax a) ->
+  exists d text, draws_contract a d /\ map (fun l => Z.of_nat (length l)) (d_first d) = lens /\
+                 instance_text a d = Ok text.
+Proof. exact every_length_vector_can_occur. Qed.
+Print Assumptions C08_every_length_can_occur.
 
 Example C08_example :
   create_quotas 4 10 = Ok [3; 3; 2; 2] /\ create_quotas 4 3 = Ok [1; 1; 1; 0] /\
